@@ -56,7 +56,8 @@ theorem newBlockReader_v1 (o : ReadOpts) (seek : Bool) (roots : Option (List Cid
     newBlockReader o seek (encodeHeader ⟨roots, 1⟩ ++ rest) =
       .ok { version := 1, roots := roots.getD [], rest := rest,
             srcLen := (encodeHeader ⟨roots, 1⟩ ++ rest).length,
-            offset := headerSize ⟨roots, 1⟩, v1offset := 0, readerSize := none, seekable := seek } := by
+            offset := headerSize ⟨roots, 1⟩, v1offset := 0, readerSize := none, seekable := seek,
+            consumed := (encodeHeader ⟨roots, 1⟩).length } := by
   unfold newBlockReader
   rw [readHeader_encode o.maxHeader ⟨roots, 1⟩ rest hwf hmax h63]
   simp [CarHeader.rootList]
